@@ -791,35 +791,38 @@ class BptkServer(Flask):
         
         instance = self._instance_manager.get_instance(instance_uuid)
 
-        if(instance.is_locked()):
+        if(not instance.try_lock()): # a single step holds the lock too
             resp = make_response('{"error": "instace is locked"}', 500)
             resp.headers['Content-Type'] = 'application/json'
             resp.headers['Access-Control-Allow-Origin'] = '*'
             return resp
 
-        if not request.is_json:
-            result = instance.run_step()
-        else:
-            content = request.get_json()
-            if "settings" in content:
-                result = instance.run_step(settings=content["settings"], flat="flatResults" in content and content["flatResults"] == True)
+        try:
+            if not request.is_json:
+                result = instance.run_step()
             else:
-                resp = make_response('{"error": "expecting settings to be set"}', 500)
-                resp.headers['Content-Type'] = 'application/json'
-                resp.headers['Access-Control-Allow-Origin'] = '*'
-                return resp
+                content = request.get_json()
+                if "settings" in content:
+                    result = instance.run_step(settings=content["settings"], flat="flatResults" in content and content["flatResults"] == True)
+                else:
+                    resp = make_response('{"error": "expecting settings to be set"}', 500)
+                    resp.headers['Content-Type'] = 'application/json'
+                    resp.headers['Access-Control-Allow-Origin'] = '*'
+                    return resp
 
-        if result is not None:
-            resp = make_response(jsonpickle.dumps(result), 200)
-        else:
-            resp = make_response('{"error": "no data was returned from run_step"}', 500)
+            if result is not None:
+                resp = make_response(jsonpickle.dumps(result), 200)
+            else:
+                resp = make_response('{"error": "no data was returned from run_step"}', 500)
 
-        if self._external_state_adapter != None:
-            self._external_state_adapter.save_instance(self._instance_manager._get_instance_state(instance_uuid))
+            if self._external_state_adapter != None:
+                self._external_state_adapter.save_instance(self._instance_manager._get_instance_state(instance_uuid))
 
-        resp.headers['Content-Type'] = 'application/json'
-        resp.headers['Access-Control-Allow-Origin']='*'
-        return resp
+            resp.headers['Content-Type'] = 'application/json'
+            resp.headers['Access-Control-Allow-Origin']='*'
+            return resp
+        finally:
+            instance.unlock()
 
     @token_required
     def _run_steps_resource(self, instance_uuid):
@@ -838,6 +841,7 @@ class BptkServer(Flask):
             return resp
         
         result = []
+        locked = False
         try:
             instance = self._instance_manager.get_instance(instance_uuid)
             if not request.is_json:
@@ -846,18 +850,17 @@ class BptkServer(Flask):
                 resp.headers['Access-Control-Allow-Origin'] = '*'
                 return resp
 
-            if(instance.is_locked()):
+            if(not instance.try_lock()):
                 resp = make_response('{"error": "instace is locked"}', 500)
                 resp.headers['Content-Type'] = 'application/json'
                 resp.headers['Access-Control-Allow-Origin'] = '*'
                 return resp
+            locked = True
             content = request.get_json()
             if "numberSteps" in content:
                 if "settings" in content:
-                    instance.lock()
                     for i in range(0,content["numberSteps"]):
                         result.append(instance.run_step(settings=content["settings"], flat="flatResults" in content and content["flatResults"] == True))
-                    instance.unlock()
                 else:
                     resp = make_response('{"error": "expecting settings to be set"}', 500)
                     resp.headers['Content-Type'] = 'application/json'
@@ -869,7 +872,11 @@ class BptkServer(Flask):
                 resp.headers['Access-Control-Allow-Origin'] = '*'
                 return resp
         except:
-            instance.unlock()
+            pass
+        finally:
+            # release the lock only if this request took it (a refused request must not unlock the running one)
+            if locked:
+                instance.unlock()
         if result is not None:
             resp = make_response(jsonpickle.dumps(result), 200)
         else:
@@ -911,7 +918,7 @@ class BptkServer(Flask):
                 resp.headers['Access-Control-Allow-Origin'] = '*'
                 return resp
 
-        if(instance.is_locked()):
+        if(not instance.try_lock()):
             resp = make_response('{"error": "instace is locked"}', 500)
             resp.headers['Content-Type'] = 'application/json'
             resp.headers['Access-Control-Allow-Origin'] = '*'
@@ -919,7 +926,6 @@ class BptkServer(Flask):
 
         def streamer():
             try:
-                instance.lock()
                 yield "["
                 first = True
                 while instance.progress() <= 1.0:
